@@ -14,7 +14,9 @@ Rule family R8 (interval normal forms) on bisturi/fragments.py::Fragments:
                every non-raising path over a non-empty map passed both tests;
  (5) tobytes:  walks chunks in position order and emits fill*(offset-begin), the chunk,
                then begin := offset + len(chunk); starts at 0; joins in order;
- (6) append/extend insert at the cursor.
+ (6) append/extend insert at the cursor;
+ (7) a rejected insert leaves the buffer untouched: on every raising path nothing (cursor,
+     chunk map, index) is written before the raise.
 The sparse-array behaviour over all histories (an inductive invariant) is not decided.
 """
 import ast
@@ -42,7 +44,7 @@ def neg_form(f):
     return {k: -v for k, v in f.items()}
 
 
-def check(ctx):
+def check(ctx, parts=('cursor', 'store', 'index', 'guards', 'atomic', 'tobytes', 'append', 'fill')):
     repo = ctx.repo
     fr = repo.cls('Fragments')
     ins = fr.methods.get('insert')
@@ -85,7 +87,7 @@ def check(ctx):
     nonempty_succ = canon(parse_expr('len(%s[%s[%s - 1 + 1]])' % (CM, BG, I)))
 
     # ---------------------------------------------------------- (1) cursor
-    for p in ok_paths:
+    for p in (ok_paths if 'cursor' in parts else []):
         st = [e for e in p.effects if e.kind == 'store_attr' and canon(e.obj) == 'self' and e.name == 'current_offset']
         label = 'path [%s]' % '; '.join(p.guard_texts())
         if not st:
@@ -99,7 +101,7 @@ def check(ctx):
 
     # ---------------------------------------------------------- (2) store
     mutators = ('pop', 'popitem', 'clear', 'update', 'setdefault', '__delitem__', '__setitem__')
-    for p in ok_paths:
+    for p in (ok_paths if 'store' in parts else []):
         subs = [e for e in p.all_effects() if e.kind == 'store_sub' and canon(e.obj) == CM]
         others = [e for e in p.all_effects() if (e.kind == 'del' and CM in canon(e.obj)) or
                   (e.kind == 'call' and isinstance(e.call.func, ast.Attribute) and canon(e.call.func.value) == CM and e.call.func.attr in mutators) or
@@ -117,7 +119,7 @@ def check(ctx):
             ctx.violation('R8-single-store', ins, s.text(), 'the chunk is stored under key %s with value %s, expected [%s] = %s' % (canon(s.name), canon(s.value), POS, STR), s.lineno, clause='2')
 
     # ---------------------------------------------------------- (3) sorted index
-    for p in ok_paths:
+    for p in (ok_paths if 'index' in parts else []):
         calls = [e for e in p.all_effects() if e.kind == 'call' and isinstance(e.call.func, ast.Attribute) and canon(e.call.func.value) == BG]
         muts = [e for e in calls if e.call.func.attr in ('insert', 'append', 'extend', 'remove', 'pop', 'sort', 'reverse', 'clear')]
         insorts = [e for e in p.all_effects() if e.kind == 'call' and call_name(e.call) in ('insort', 'insort_right', 'bisect.insort', 'bisect.insort_right')
@@ -140,7 +142,7 @@ def check(ctx):
 
     # ---------------------------------------------------------- (4) collision guards
     pred_tests, succ_tests = [], []
-    for p in bad_paths:
+    for p in (bad_paths if 'guards' in parts else []):
         exc = p.end[1]
         if exc is not None and call_name(exc) == 'AssertionError':
             continue
@@ -180,12 +182,12 @@ def check(ctx):
             pred_tests.append(g)
         else:
             ctx.undecided('R8-collision-guards', ins, 'raise under %s' % txt, 'a raise whose condition is not one of the two neighbour tests (a non-empty insert must raise exactly on overlap)', ins.node.lineno, clause='4')
-    if not pred_tests:
+    if not pred_tests and 'guards' in parts:
         ctx.violation('R8-collision-guards', ins, 'no predecessor overlap test', 'insert never raises for an overlap with the chunk that begins at or before position', ins.node.lineno, clause='4')
-    if not succ_tests:
+    if not succ_tests and 'guards' in parts:
         ctx.violation('R8-collision-guards', ins, 'no successor overlap test', 'insert never raises for an overlap with the chunk that begins after position', ins.node.lineno, clause='4')
     # every non-raising path over a non-empty map passed both tests
-    for p in ok_paths:
+    for p in (ok_paths if 'guards' in parts else []):
         texts = p.guard_texts()
         empty_map = ('not %s' % CM) in texts or ('(len(%s) == 0)' % CM) in texts or ('not %s' % BG) in texts
         if empty_map:
@@ -203,11 +205,26 @@ def check(ctx):
         else:
             ctx.holds('R8-guards-dominate-store', ins, 'path [%s]' % '; '.join(texts), 'both neighbour tests were passed (or there is no successor)', ins.node.lineno, clause='4')
 
+    # ---------------------------------------------------------- (7) a raise leaves the buffer untouched
+    if 'atomic' in parts:
+        for p in bad_paths:
+            exc = p.end[1]
+            if exc is not None and call_name(exc) == 'AssertionError':
+                continue
+            touched = [e for e in p.all_effects() if (e.kind == 'store_attr' and canon(e.obj) == 'self') or (e.kind == 'store_sub' and canon(e.obj) in (CM, BG))
+                       or (e.kind == 'call' and isinstance(e.call.func, ast.Attribute) and canon(e.call.func.value) in (CM, BG) and e.call.func.attr in ('insert', 'append', 'pop', 'remove', 'clear', 'update', 'sort'))]
+            label = 'raising path [%s]' % '; '.join(p.guard_texts())[:160]
+            if touched:
+                ctx.violation('R8-raise-leaves-state', ins, '%s: %s' % (label, touched[0].text()), 'the buffer (cursor / chunk map / index) is modified before the collision is raised: the rejected insert leaves a moved cursor or a stored chunk behind', touched[0].lineno, clause='7')
+            else:
+                ctx.holds('R8-raise-leaves-state', ins, label, 'nothing is written before the raise', ins.node.lineno, clause='7')
+
     # ---------------------------------------------------------- (5) tobytes
-    check_tobytes(ctx, repo, fr, tob, CM)
+    if 'tobytes' in parts:
+        check_tobytes(ctx, repo, fr, tob, CM)
 
     # ---------------------------------------------------------- (6) append / extend
-    for name in ('append', 'extend'):
+    for name in (('append', 'extend') if 'append' in parts else ()):
         fi = fr.methods.get(name)
         if fi is None:
             ctx.undecided('R8-append-at-cursor', (fr.file, 'Fragments.' + name), name, 'method not found')
@@ -222,6 +239,9 @@ def check(ctx):
             ctx.holds('R8-append-at-cursor', fi, stmt_text(c), 'inserts at the cursor', c.lineno, clause='6')
         else:
             ctx.violation('R8-append-at-cursor', fi, stmt_text(c), 'does not insert at the current cursor', c.lineno, clause='6')
+    if 'fill' not in parts:
+        ctx.floor('paths of Fragments.insert', len(paths), 4)
+        return
     # default fill
     init_fill = None
     a = init.node.args
